@@ -9,6 +9,7 @@ import (
 	"os/exec"
 	"path/filepath"
 	"regexp"
+	"strconv"
 	"strings"
 	"testing"
 	"time"
@@ -356,7 +357,7 @@ func lookup(doc map[string]any, path string) (any, bool) {
 }
 
 var subCLI = ev.Register("cli-overrides",
-	"a start-up sequence in a child process (load var/config.json, apply a generated set of command-line flags through OverrideFromFlags, then apply 0-3 generated API-style update documents, some addressing the overridden settings); oracle: the effective value of every overridden setting is the flag value before and after every update; the file never contains a flag value (it holds the base or updated value); reloading the file without flags yields the file values and they equal the non-overridden effective values; a file saved by an accepted update (also one giving an unusable value for an overridden setting) is loaded by the next start-up, not reset; non-trivial = an override is followed by an update of the same setting; distinct by (flag set, update documents)",
+	"a start-up sequence in a child process (load var/config.json, apply a generated set of command-line flags through OverrideFromFlags, then apply 0-3 generated API-style update documents, some addressing the overridden settings); oracle: the effective value of every overridden setting is the flag value before and after every update; the file never contains a flag value (it holds the base or updated value); reloading the file without flags yields the file values and they equal the non-overridden effective values; a file saved by an accepted update (also one giving an unusable value for an overridden setting) is loaded by the next start-up, not reset; an update that gives an overridden setting the flag's own value is saved like any other; non-trivial = an override is followed by an update of the same setting; distinct by (flag set, update documents)",
 	func(c CLICase, o *ev.Obs) *ev.Failure {
 		bin := filepath.Join(os.Getenv("VERIF_BIN_DIR"), "cfgcli")
 		if _, err := os.Stat(bin); err != nil {
@@ -435,6 +436,25 @@ var subCLI = ev.Register("cli-overrides",
 				return ev.Failf("cli.override-persisted", "after reloading the file without flags %s is still the flag value %q", p, f.Want)
 			}
 		}
+		// an accepted update that gives an overridden setting exactly the value of its flag is still an update of the
+		// stored value: the next start, without the flag, runs with it
+		if out.Reloaded != nil && !out.ReloadReset {
+			for p, f := range overridden {
+				last := -1
+				for i, u := range c.Updates {
+					if _, ok := lookup(u, p); ok && out.UpdateErrors[i] == "" {
+						last = i
+					}
+				}
+				if last < 0 {
+					continue
+				}
+				uv, _ := lookup(c.Updates[last], p)
+				if fmt.Sprint(uv) == f.Value && out.Reloaded[p] != f.Want {
+					return ev.Failf("cli.accepted-update-not-saved", "flag -%s=%s and an accepted update setting %s to that same value: after reloading the file without flags %s is %q, not %q", f.Name, f.Value, p, p, out.Reloaded[p], f.Want)
+				}
+			}
+		}
 		// whatever was accepted has been saved: the next start must be able to load that file. (A start-up that finds
 		// the file unusable resets it to the defaults - every setting saved with it is gone.)
 		if out.ReloadReset {
@@ -472,6 +492,20 @@ var subCLI = ev.Register("cli-overrides",
 		return nil
 	})
 
+// flagJSON is the flag's value in the type the setting has in an update document.
+func flagJSON(f Flag) any {
+	switch f.Value {
+	case "true":
+		return true
+	case "false":
+		return false
+	}
+	if n, err := strconv.Atoi(f.Value); err == nil && strings.HasSuffix(f.Path, "max_backups") {
+		return n
+	}
+	return f.Value
+}
+
 func seenPath(fs []Flag, path string) (Flag, bool) {
 	for _, f := range fs {
 		if f.Path == path {
@@ -498,6 +532,10 @@ func TestCLIOverrides(t *testing.T) {
 			if rapid.Bool().Draw(t, "hit") {
 				f := c.Flags[rapid.IntRange(0, len(c.Flags)-1).Draw(t, "which")]
 				cfgkit.Set(d, f.Path, cfgkit.Valid[f.Path](t))
+				if rapid.IntRange(0, 2).Draw(t, "same-as-flag") == 0 {
+					// the operator makes permanent what the flag says
+					cfgkit.Set(d, f.Path, flagJSON(f))
+				}
 			}
 			// an update that is refused as a whole (one unworkable setting among valid ones, refused only after the
 			// valid ones were taken in) must leave the overrides standing as well
